@@ -375,9 +375,5 @@ def replay(rep: Report, path: str) -> None:
     rep.case("replay")
     rep.case(json.dumps(c)[:200])
     rep.sample({"input_targets": [n["tgt"] for n in c.get("g", [])]})
-    if "g" in c:
-        out = common.validate_traces("UnitScale_Trace", "UnitScale_Trace.cfg", [{k: c[k] for k in ("g", "umap", "out", "err", "ran")}], tag="ustr")
-        rep.add_trace_result(out)
-        for (l, clause) in out["fails"]:
-            rep.violation(f"recorded run rejected again: {clause} (re-running the seeded generation reproduces it from the code)", c, key=clause)
+    # the recorded graphs are kept in the replay file for inspection; the verdict comes from re-running the seeded generation on the current tree
     run(rep, "quick")
